@@ -506,6 +506,27 @@ def r6_error_path_cannot_panic(ctx):
     for f, bb, t in writers:
         app = re.search(r"(try_)?append$", t["callee"]) is not None
         ctx.check(R, "header-writer-appends:%s" % f.id, app, "%s uses HeaderMap::%s (insert would drop an earlier value of a repeated header such as WWW-Authenticate / Set-Cookie / Allow)" % (f.id, t["callee"].split("::")[-1]), (f, bb))
+    # Added after adversary change C13-N (`headers_mut` went from `get_or_insert_with(..)` to `Option::insert(Box::default())`: every call
+    # started from an empty map, so of the headers attached to an error in several calls only the last survived, the router's Allow list
+    # included): the accessor creates the map only when there is none -- the slot is filled by get_or_insert(_with), or written only
+    # under a test that found it empty
+    hm = ctx.ds.one(r"^error::HttpError::headers_mut$")
+    if hm is None:
+        ctx.lost(R, "HttpError::headers_mut")
+    else:
+        tests_t = [("call", b) for b, t in hm.live_calls(r"Option::<T>::is_none$") if hm.slice(t["args"][0]).reads_field("headers")]
+        tests_f = [("call", b) for b, t in hm.live_calls(r"Option::<T>::is_some$") if hm.slice(t["args"][0]).reads_field("headers")]
+        sites = [(b, t["callee"].split("::")[-1]) for b, t in hm.live_calls(r"Option::<T>::(insert|replace|take)$|mem::(replace|take|swap)$") if hm.slice(t["args"][0]).reads_field("headers")]
+        for b, i, st in hm.stmts():
+            pl = st["pl"]
+            fs = [e for e in pl["p"] if isinstance(e, dict) and "f" in e]
+            if b in hm.reachable(0) and not hm.blocks[b]["cleanup"] and fs and fs[-1].get("n") == "headers" and pl["p"][-1] is fs[-1]:
+                sites.append((b, "assignment"))
+        bad = [(b, how) for b, how in sites if not hm.guarded_by(b, atoms_true=tests_t, atoms_false=tests_f)[0]]
+        creates = bool(hm.live_calls(r"Option::<T>::get_or_insert(_with|_default)?$")) or bool(sites)
+        ctx.check(R, "headers_mut-keeps-the-existing-map", creates and not bad,
+                  "writes of self.headers in headers_mut that are not under a test that found it empty: %s (get_or_insert_with: %s)" % (
+                      [how for _, how in bad] or "none", bool(hm.live_calls(r"Option::<T>::get_or_insert(_with|_default)?$"))), (hm, bad[0][0]) if bad else hm)
 
 
 RULES = [("C13.R6", r6_error_path_cannot_panic), ("C13.R1", r1_only_error_codes), ("C13.R2", r2_response_construction), ("C13.R3", r3_internal_stays_internal), ("C13.R4", r4_one_request_id), ("C13.R5", r5_every_response_stamped)]
